@@ -751,8 +751,16 @@ func (env *SpecEnv) evalCall(e *Expr) SVal {
 			env.errf(e, "idx(%d): no such loop", n)
 		}
 		l := env.fr.info.LoopOrd[n-1]
+		if l.RangeIx == nil && l.CountIx != nil {
+			// a counted loop: the induction variable itself is the number of completed iterations
+			v, ok := env.fr.regs[l.CountIx]
+			if !ok {
+				env.errf(e, "idx(%d): loop counter not yet defined", n)
+			}
+			return SVal{T: v.T}
+		}
 		if l.RangeIx == nil {
-			env.errf(e, "idx(%d): loop has no range index", n)
+			env.errf(e, "idx(%d): loop has neither a range index nor a counter starting at 0 and stepping by 1", n)
 		}
 		v, ok := env.fr.regs[l.RangeIx]
 		if !ok {
